@@ -41,7 +41,7 @@ fn spec(tier: Tier) -> CheckSpec {
 	let n = crate::common::ncpu();
 	CheckSpec {
 		property: "C07",
-		level: "exploration",
+		level: "model_checking",
 		rule: format!(
 			"exhaustive, on the real FileImportResolver over a scratch directory tree, through a recording/fault-injecting wrapper: \
 			(layouts) a file placed in every subset of {{importer dir, J1, J2, E1}} with per-directory contents x every -J flag sequence over {{J1,J2}} (5) x JSONNET_PATH in {{unset, E1, E1:J1, J1:E1}} (search path assembled by the real MiscOpts::import_resolver through clap) x import kind (3) x path spelling {{plain, ./, sub/../, absolute}} x importer location {{main file, a library file itself found through the search path}}: the winner must be the first existing candidate in (importer dir, -J right-most first, JSONNET_PATH in order), otherwise a not-found error; \
